@@ -1,7 +1,809 @@
-(* C03 — lemmas. *)
+(* C03 — lemmas: the scripted reader, the relation between ioDecReader states and
+   specification states, simulation of every operation (unbuffered part). *)
 From Coq Require Import List NArith ZArith Arith Lia Bool.
 From Verif Require Import Gen.Consts C03.Model.
 Import ListNotations.
 
 Lemma tries_eq : tries = 16.
 Proof. reflexivity. Qed.
+
+(* ---------- lists ---------- *)
+Lemma skipn_app_le : forall (A : Type) k (a b : list A), k <= length a -> skipn k (a ++ b) = skipn k a ++ b.
+Proof.
+  intros A k a b H. rewrite skipn_app. replace (k - length a) with 0 by lia. reflexivity.
+Qed.
+
+Lemma firstn_app_le : forall (A : Type) k (a b : list A), k <= length a -> firstn k (a ++ b) = firstn k a.
+Proof.
+  intros A k a b H. rewrite firstn_app. replace (k - length a) with 0 by lia.
+  rewrite firstn_O, app_nil_r. reflexivity.
+Qed.
+
+Lemma last_app_ne : forall (a b : list N) d, b <> [] -> last (a ++ b) d = last b d.
+Proof.
+  induction a as [|x a IH]; intros b d Hb; [reflexivity|].
+  simpl. destruct (a ++ b) eqn:E.
+  - destruct a, b; simpl in E; congruence.
+  - rewrite <- E. apply IH, Hb.
+Qed.
+
+Lemma last_indep : forall (a : list N) d d', a <> [] -> last a d = last a d'.
+Proof.
+  induction a as [|x a IH]; intros d d' H; [congruence|].
+  destruct a; [reflexivity|]. simpl in *. apply IH. congruence.
+Qed.
+
+Lemma skipn_pred_last : forall (a : list N) d, a <> [] -> skipn (length a - 1) a = [last a d].
+Proof.
+  induction a as [|x a IH]; intros d H; [congruence|].
+  destruct a as [|y a]; [reflexivity|].
+  replace (length (x :: y :: a) - 1) with (S (length (y :: a) - 1)) by (simpl; lia).
+  rewrite skipn_cons. rewrite (IH d) by congruence. reflexivity.
+Qed.
+
+Lemma app_removelast_last' : forall (a : list N) d, a <> [] -> a = removelast a ++ [last a d].
+Proof. intros. apply app_removelast_last. assumption. Qed.
+
+(* ---------- suffixes of scripts, the contract ---------- *)
+Definition sfx (a b : list resp) : Prop := exists p, b = p ++ a.
+
+Lemma sfx_refl : forall a, sfx a a.
+Proof. intros a. exists []. reflexivity. Qed.
+
+Lemma sfx_trans : forall a b c, sfx a b -> sfx b c -> sfx a c.
+Proof. intros a b c [p ->] [q ->]. exists (q ++ p). rewrite app_assoc. reflexivity. Qed.
+
+Lemma sfx_cons : forall x a, sfx a (x :: a).
+Proof. intros x a. exists [x]. reflexivity. Qed.
+
+Lemma abides_lt : forall sc c, abides_from c sc -> c < tries.
+Proof. destruct sc; intros c [H _]; exact H. Qed.
+
+Lemma abides_weaken : forall sc c c', abides_from c sc -> c' <= c -> abides_from c' sc.
+Proof.
+  induction sc as [|x sc IH]; intros c c' [H1 H2] Hle; simpl; split; try lia; auto.
+  destruct (rk x =? 0); [apply (IH (S c)); [assumption|lia]|assumption].
+Qed.
+
+Lemma abides_tail : forall x sc c, abides_from c (x :: sc) -> abides_from 0 sc.
+Proof.
+  intros x sc c [_ H]. destruct (rk x =? 0); [apply (abides_weaken _ _ _ H); lia|assumption].
+Qed.
+
+Lemma abides_sfx : forall a b, sfx a b -> abides b -> abides a.
+Proof.
+  intros a b [p ->]. unfold abides. induction p as [|x p IH]; intros H; [assumption|].
+  apply IH. eapply abides_tail. exact H.
+Qed.
+
+(* ---------- the scripted reader ---------- *)
+Definition fin_ok (r : rdr) : Prop := fin r = KEof \/ fin r = KHard.
+
+Lemma fin_ok_none : forall r, fin_ok r -> fin r <> KNone.
+Proof. intros r [H|H]; rewrite H; discriminate. Qed.
+
+Lemma rd_read_spec : forall m r d e r', rd_read m r = (d, e, r') -> 0 < m -> fin_ok r ->
+  fin r' = fin r /\ data r = d ++ data r' /\ length d <= m /\ drawn r' = drawn r + length d /\
+  (e = KNone \/ (e = fin r /\ data r' = [])) /\
+  (e = KNone -> rmsr r' < rmsr r) /\
+  ((script r = [] /\ script r' = []) \/ exists x, script r = x :: script r' /\ (rk x = 0 -> d = [] /\ e = KNone)) /\
+  (e = KNone -> d = [] -> exists x, script r = x :: script r' /\ rk x = 0).
+Proof.
+  intros m r d e r' H Hm Hf. unfold rd_read in H. pose proof (fin_ok_none r Hf) as Hfn.
+  destruct (script r) as [|x rest] eqn:Es.
+  - destruct (data r) as [|b dd] eqn:Ed.
+    + inversion H; subst; clear H. cbn. unfold rmsr; cbn. repeat apply conj; auto; try lia.
+      * intros E. congruence.
+      * intros E. congruence.
+    + inversion H; subst; clear H. cbn [fin data drawn script]. rewrite <- Ed.
+      repeat apply conj; auto.
+      * symmetry. apply firstn_skipn.
+      * rewrite firstn_length. lia.
+      * intros _. unfold rmsr; cbn [script data]. rewrite Es. cbn [length].
+        rewrite skipn_length. rewrite Ed. cbn [length]. lia.
+      * intros _ E. destruct m; [lia|]. rewrite Ed in E. discriminate.
+  - destruct (rk x =? 0) eqn:Ek.
+    + inversion H; subst; clear H. cbn [fin data drawn script]. apply Nat.eqb_eq in Ek.
+      repeat apply conj; auto; try (cbn; lia).
+      * intros _. unfold rmsr; cbn [script data]. rewrite Es. cbn. lia.
+      * right. exists x. auto.
+      * intros _ _. exists x. auto.
+    + apply Nat.eqb_neq in Ek. destruct (data r) as [|b dd] eqn:Ed.
+      * inversion H; subst; clear H. cbn [fin data drawn script]. repeat apply conj; auto; try (cbn; lia).
+        -- intros E. congruence.
+        -- right. exists x. split; [reflexivity|]. intros; lia.
+        -- intros E. congruence.
+      * inversion H; subst; clear H. cbn [fin data drawn script]. rewrite <- Ed.
+        repeat apply conj; auto.
+        -- symmetry. apply firstn_skipn.
+        -- rewrite firstn_length. lia.
+        -- destruct (rlast x && (length (skipn (Nat.min (rk x) m) (data r)) =? 0)) eqn:El; [|left; reflexivity].
+           right. split; [reflexivity|]. apply andb_prop in El. destruct El as [_ El].
+           apply Nat.eqb_eq in El. apply length_zero_iff_nil. exact El.
+        -- intros _. unfold rmsr; cbn [script data]. rewrite Es. cbn [length].
+           rewrite skipn_length. lia.
+        -- right. exists x. split; [reflexivity|]. intros; lia.
+        -- intros _ E. exfalso. rewrite Ed in E.
+           destruct (Nat.min (rk x) m) eqn:Emin; [lia|]. discriminate.
+Qed.
+
+Lemma rd_read_sfx : forall m r d e r', rd_read m r = (d, e, r') -> 0 < m -> fin_ok r -> sfx (script r') (script r).
+Proof.
+  intros m r d e r' H Hm Hf. destruct (rd_read_spec _ _ _ _ _ H Hm Hf) as (_ & _ & _ & _ & _ & _ & [[-> ->]|[x [-> _]]] & _).
+  - apply sfx_refl.
+  - apply sfx_cons.
+Qed.
+
+(* readOne *)
+Lemma readOne_spec : forall i r, fin_ok r ->
+  match readOne i r with
+  | (Some b, _, r') => data r = b :: data r' /\ drawn r' = S (drawn r) /\ fin r' = fin r /\ sfx (script r') (script r)
+  | (None, e, r') => fin r' = fin r /\ sfx (script r') (script r) /\ drawn r' = drawn r /\
+                     ((e = fin r /\ data r = [] /\ data r' = []) \/
+                      (e = KNoProgress /\ forall c, c + i = tries -> ~ abides_from c (script r)))
+  end.
+Proof.
+  induction i as [|i IH]; intros r Hf.
+  - cbn [readOne]. repeat apply conj; auto using sfx_refl. right. split; [reflexivity|].
+    intros c Hc Hab. apply abides_lt in Hab. lia.
+  - cbn [readOne]. destruct (rd_read 1 r) as [[d e] r1] eqn:E.
+    destruct (rd_read_spec _ _ _ _ _ E ltac:(lia) Hf) as (Hfin & Hd & Hlen & Hdr & He & Hm & Hs & Hz).
+    pose proof (rd_read_sfx _ _ _ _ _ E ltac:(lia) Hf) as Hsf.
+    destruct d as [|b d].
+    + destruct (is_none e) eqn:En.
+      * destruct e; try discriminate. specialize (Hz eq_refl eq_refl). destruct Hz as [x [Hx Hk]].
+        assert (Hf1 : fin_ok r1) by (unfold fin_ok; rewrite Hfin; exact Hf).
+        specialize (IH r1 Hf1). destruct (readOne i r1) as [[ob e'] r2].
+        cbn in Hd. destruct ob as [b|].
+        -- destruct IH as (A & B & C & D). repeat apply conj; try congruence.
+           ++ cbn in Hdr. lia.
+           ++ eapply sfx_trans; eassumption.
+        -- destruct IH as (A & B & C & D). repeat apply conj; try congruence.
+           ++ eapply sfx_trans; eassumption.
+           ++ cbn in Hdr. lia.
+           ++ destruct D as [(D1 & D2 & D3)|(D1 & D2)].
+              ** left. repeat apply conj; congruence.
+              ** right. split; [assumption|]. intros c Hc Hab. rewrite Hx in Hab.
+                 destruct Hab as [_ Hab]. rewrite Hk in Hab. cbn in Hab. apply (D2 (S c)); [lia|assumption].
+      * destruct He as [He|[He Hd']]; [subst e; discriminate|].
+        cbn in Hd, Hdr. split; [assumption|]. split; [assumption|]. split; [lia|].
+        left. repeat apply conj; congruence.
+    + cbn in Hlen. destruct d; [|cbn in Hlen; lia]. cbn in Hd, Hdr. repeat apply conj; auto. lia.
+Qed.
+
+(* ReadByte *)
+Lemma readbyte_sc_spec : forall sc d f,
+  match readbyte_sc sc d f with
+  | (Some b, _, d', sc') => d = b :: d' /\ sfx sc' sc
+  | (None, e, d', sc') => e = f /\ d = [] /\ d' = [] /\ sfx sc' sc
+  end.
+Proof.
+  induction sc as [|x sc IH]; intros d f; cbn.
+  - destruct d; repeat apply conj; auto using sfx_refl.
+  - destruct (rk x =? 0).
+    + specialize (IH d f). destruct (readbyte_sc sc d f) as [[[ob e] d'] sc'].
+      destruct ob; intuition auto; eapply sfx_trans; eauto using sfx_cons.
+    + destruct d; repeat apply conj; auto using sfx_cons.
+Qed.
+
+(* one byte, either way *)
+Lemma get1_spec : forall c r, fin_ok r ->
+  match get1 c r with
+  | (Some b, _, r') => data r = b :: data r' /\ drawn r' = S (drawn r) /\ fin r' = fin r /\ sfx (script r') (script r)
+  | (None, e, r') => fin r' = fin r /\ sfx (script r') (script r) /\ drawn r' = drawn r /\
+                     ((e = fin r /\ data r = [] /\ data r' = []) \/
+                      (e = KNoProgress /\ ~ abides (script r)))
+  end.
+Proof.
+  intros c r Hf. unfold get1. destruct (rbr c).
+  - unfold rd_readbyte. pose proof (readbyte_sc_spec (script r) (data r) (fin r)) as H.
+    destruct (readbyte_sc (script r) (data r) (fin r)) as [[[ob e] d'] sc'].
+    destruct ob; cbn [fin data drawn script].
+    + destruct H. split; [assumption|]. split; [lia|]. split; [reflexivity|assumption].
+    + destruct H as (A & B & C & D). split; [reflexivity|]. split; [assumption|]. split; [lia|].
+      left. auto.
+  - pose proof (readOne_spec tries r Hf) as H. destruct (readOne tries r) as [[ob e] r'].
+    destruct ob; [exact H|]. destruct H as (A & B & C & D). repeat apply conj; auto.
+    destruct D as [D|[D1 D2]]; [left; exact D|right]. split; [exact D1|]. apply (D2 0). reflexivity.
+Qed.
+
+(* the READER loop *)
+Lemma uread_spec : forall fuel reqf want acc r,
+  (forall w, 0 < w -> 0 < reqf w <= w) -> fin_ok r -> 0 < want -> rmsr r < fuel ->
+  match uread fuel reqf want acc r with
+  | (Some out, _, r') => want <= length (data r) /\ out = acc ++ firstn want (data r) /\
+                         data r' = skipn want (data r) /\ drawn r' = drawn r + want /\
+                         fin r' = fin r /\ sfx (script r') (script r)
+  | (None, e, _) => length (data r) < want /\ e = fin r
+  end.
+Proof.
+  induction fuel as [|fuel IH]; intros reqf want acc r Hreq Hf Hw Hfuel; [lia|].
+  cbn [uread]. destruct (rd_read (reqf want) r) as [[d e] r1] eqn:E.
+  destruct (Hreq want Hw) as [Hr1 Hr2].
+  destruct (rd_read_spec _ _ _ _ _ E Hr1 Hf) as (Hfin & Hd & Hlen & Hdr & He & Hm & Hs & Hz).
+  pose proof (rd_read_sfx _ _ _ _ _ E Hr1 Hf) as Hsf.
+  destruct (want - length d =? 0) eqn:Ew.
+  - apply Nat.eqb_eq in Ew. assert (length d = want) by lia.
+    repeat apply conj; auto.
+    + rewrite Hd, app_length. lia.
+    + rewrite Hd. rewrite firstn_app_le by lia. rewrite firstn_all2 by lia. reflexivity.
+    + rewrite Hd. rewrite skipn_app. rewrite skipn_all2 by lia. replace (want - length d) with 0 by lia. reflexivity.
+    + lia.
+  - apply Nat.eqb_neq in Ew. destruct (is_none e) eqn:En.
+    + destruct e; try discriminate. specialize (Hm eq_refl).
+      assert (Hf1 : fin_ok r1) by (unfold fin_ok; rewrite Hfin; exact Hf).
+      specialize (IH reqf (want - length d) (acc ++ d) r1 Hreq Hf1 ltac:(lia) ltac:(lia)).
+      destruct (uread fuel reqf (want - length d) (acc ++ d) r1) as [[oo e'] r2].
+      destruct oo as [out|].
+      * destruct IH as (A & B & C & D & F & G). repeat apply conj.
+        -- rewrite Hd, app_length. lia.
+        -- rewrite B, Hd. rewrite <- app_assoc. f_equal.
+           rewrite firstn_app. rewrite (@firstn_all2 _ want d) by lia. reflexivity.
+        -- rewrite C, Hd. rewrite skipn_app. rewrite (@skipn_all2 _ want d) by lia. reflexivity.
+        -- lia.
+        -- congruence.
+        -- eapply sfx_trans; eassumption.
+      * destruct IH as [A B]. split; [rewrite Hd, app_length; lia|congruence].
+    + destruct He as [He|[He Hd']]; [subst e; discriminate|].
+      split; [|exact He]. rewrite Hd, Hd', app_nil_r. lia.
+Qed.
+
+Lemma sfx_length : forall a b, sfx a b -> length a <= length b.
+Proof. intros a b [p ->]. rewrite app_length. lia. Qed.
+
+(* ---------- unbuffered mode: the relation ---------- *)
+Record Ru (sc0 : list resp) (f0 : ek) (s : st) (p : sp) : Prop := mkRu {
+  ru_data : data (rd s) = rest p;
+  ru_n : n s = length (pre p);
+  ru_drawn : drawn (rd s) = n s;
+  ru_l : pre p <> [] -> l s = last (pre p) 0%N;
+  ru_rec : recording s = srec p;
+  ru_buf : recording s = true -> buf s = skipn (recpos p) (pre p) /\ recpos p < length (pre p);
+  ru_fin : fin_ok (rd s);
+  ru_fin0 : fin (rd s) = f0;
+  ru_sfx : sfx (script (rd s)) sc0 }.
+
+(* the state after [d] more bytes have been consumed *)
+Lemma Ru_adv : forall sc0 f0 s p s' d rest',
+  Ru sc0 f0 s p -> rest p = d ++ rest' ->
+  data (rd s') = rest' -> n s' = n s + length d -> drawn (rd s') = drawn (rd s) + length d ->
+  l s' = last d (l s) -> recording s' = recording s ->
+  (recording s = true -> buf s' = buf s ++ d) ->
+  fin (rd s') = fin (rd s) -> sfx (script (rd s')) (script (rd s)) ->
+  Ru sc0 f0 s' (mksp (pre p ++ d) rest' (srec p) (recpos p)).
+Proof.
+  intros sc0 f0 s p s' d rest' [R1 R2 R3 R4 R5 R6 R7 R9 R8] Hrest H1 H2 H3 H4 H5 H6 H7 H8.
+  constructor; cbn [pre rest srec recpos].
+  - assumption.
+  - rewrite H2, R2, app_length. reflexivity.
+  - lia.
+  - intros Hne. rewrite H4. destruct d as [|x d].
+    + rewrite app_nil_r in *. cbn. apply R4. exact Hne.
+    + rewrite last_app_ne by discriminate. apply last_indep. discriminate.
+  - congruence.
+  - rewrite H5. intros Hr. destruct (R6 Hr) as [B1 B2]. split.
+    + rewrite (H6 Hr), B1. rewrite skipn_app_le by lia. reflexivity.
+    + rewrite app_length. lia.
+  - unfold fin_ok. rewrite H7. exact R7.
+  - congruence.
+  - eapply sfx_trans; eassumption.
+Qed.
+
+(* ---------- what a step must satisfy ---------- *)
+Definition bad (k : ek) : Prop := k = KFuel \/ k = KUnmodelled \/ k = KNone.
+
+Definition sim (sc0 : list resp) (R : st -> sp -> Prop) (s : st) (io : res) (spr : sres) : Prop :=
+  match io, spr with
+  | Ok out tok s', SOk out' tok' p' => out = out' /\ tok = tok' /\ R s' p'
+  | Ok _ _ _, SErr => False
+  | Err k, SErr => ~ bad k
+  | Err k, SOk _ _ _ => ~ bad k /\ ~ (fin (rd s) = KEof /\ abides sc0)
+  end.
+
+Lemma fin_not_bad : forall r, fin_ok r -> ~ bad (fin r).
+Proof. intros r [H|H] [B|[B|B]]; congruence. Qed.
+
+Lemma noprog_not_bad : ~ bad KNoProgress.
+Proof. intros [B|[B|B]]; discriminate. Qed.
+
+Lemma inferLen_ok : forall m, 0 < m -> forall w, 0 < w -> 0 < inferLen w m <= w.
+Proof.
+  intros m Hm w Hw. unfold inferLen. destruct (w =? 0) eqn:E; [apply Nat.eqb_eq in E; lia|]. lia.
+Qed.
+
+Lemma mil_pos : forall c, 0 < mil c.
+Proof. intros c. unfold mil. lia. Qed.
+
+Lemma u_take_sim : forall sc0 f0 s p k reqf (ap keep : bool),
+  Ru sc0 f0 s p -> (forall w, 0 < w -> 0 < reqf w <= w) -> 0 < k -> (recording s = true -> ap = true) ->
+  sim sc0 (Ru sc0 f0) s
+    (match uread (rmsr (rd s) + 2) reqf k [] (rd s) with
+     | (Some d, _, r') => Ok (if keep then d else []) 0%N (ugotn s r' d ap)
+     | (None, e, _) => Err e
+     end)
+    (sp_take k keep p).
+Proof.
+  intros sc0 f0 s p k reqf ap keep HR Hreq Hk Happ.
+  pose proof (uread_spec (rmsr (rd s) + 2) reqf k [] (rd s) Hreq (ru_fin _ _ _ _ HR) Hk ltac:(lia)) as H.
+  destruct (uread (rmsr (rd s) + 2) reqf k [] (rd s)) as [[od e] r'].
+  unfold sp_take. rewrite <- (ru_data _ _ _ _ HR).
+  destruct od as [d|].
+  - destruct H as (A & B & C & D & F & G). cbn [app] in B.
+    destruct (k <=? length (data (rd s))) eqn:E; [|apply Nat.leb_gt in E; lia].
+    cbn [sim]. split; [rewrite B; reflexivity|]. split; [reflexivity|].
+    unfold stake. rewrite <- (ru_data _ _ _ _ HR). rewrite <- B, <- C.
+    assert (Hlen : length d = k) by (rewrite B, firstn_length; lia).
+    eapply Ru_adv; try exact HR; cbn [ugotn rd n l recording buf].
+    + rewrite <- (ru_data _ _ _ _ HR). rewrite B, C. symmetry. apply firstn_skipn.
+    + reflexivity.
+    + reflexivity.
+    + lia.
+    + reflexivity.
+    + reflexivity.
+    + intros Hr. rewrite (Happ Hr). reflexivity.
+    + assumption.
+    + assumption.
+  - destruct H as [A B]. subst e.
+    destruct (k <=? length (data (rd s))) eqn:E; [apply Nat.leb_le in E; lia|].
+    cbn [sim]. apply fin_not_bad, (ru_fin _ _ _ _ HR).
+Qed.
+
+Lemma last_cons_d : forall (a : list N) b d, last (b :: a) d = last a b.
+Proof. intros a b d. destruct a as [|x a]; [reflexivity|]. change (last (b :: x :: a) d) with (last (x :: a) d). apply last_indep. discriminate. Qed.
+
+(* the unbuffered scanning loop *)
+Lemma u_scan_spec : forall fuel c cont (ap : bool) s, fin_ok (rd s) -> rmsr (rd s) < fuel ->
+  match u_scan fuel c cont ap s with
+  | UTok t s' => exists a r', span cont (data (rd s)) = (a, t :: r') /\ cont t = false /\ data (rd s') = r' /\
+       n s' = n s + S (length a) /\ drawn (rd s') = drawn (rd s) + S (length a) /\
+       buf s' = (if ap then buf s ++ a ++ [t] else buf s) /\ l s' = t /\ recording s' = recording s /\
+       fin (rd s') = fin (rd s) /\ sfx (script (rd s')) (script (rd s))
+  | UEnd e s' => (exists a, span cont (data (rd s)) = (a, []) /\ e = fin (rd s) /\ data (rd s') = [] /\
+       n s' = n s + length a /\ drawn (rd s') = drawn (rd s) + length a /\
+       buf s' = (if ap then buf s ++ a else buf s) /\ l s' = last a (l s) /\ recording s' = recording s /\
+       fin (rd s') = fin (rd s) /\ sfx (script (rd s')) (script (rd s)))
+      \/ (e = KNoProgress /\ ~ abides (script (rd s)))
+  end.
+Proof.
+  induction fuel as [|fuel IH]; intros c cont ap s Hf Hfuel; [lia|].
+  cbn [u_scan]. pose proof (get1_spec c (rd s) Hf) as G.
+  destruct (get1 c (rd s)) as [[ob e] r'].
+  destruct ob as [b|].
+  - destruct G as (G1 & G2 & G3 & G4).
+    set (s1 := ugot s r' b ap).
+    assert (Hf1 : fin_ok (rd s1)) by (unfold fin_ok; cbn; rewrite G3; exact Hf).
+    assert (Hm : rmsr (rd s1) < fuel).
+    { cbn. unfold rmsr in *. apply sfx_length in G4. rewrite G1 in Hfuel. cbn [length] in Hfuel. lia. }
+    rewrite G1. cbn [span]. destruct (cont b) eqn:Ec.
+    + specialize (IH c cont ap s1 Hf1 Hm). destruct (u_scan fuel c cont ap s1) as [t s'|e' s'].
+      * destruct IH as (a & rr & I1 & I0 & I2 & I3 & I4 & I5 & I6 & I7 & I8 & I9).
+        cbn [s1 ugot rd n buf l recording] in *. rewrite I1.
+        exists (b :: a), rr. repeat apply conj; auto; cbn [length]; try lia.
+        -- rewrite I5. destruct ap; [|reflexivity]. rewrite <- app_assoc. reflexivity.
+        -- congruence.
+        -- eapply sfx_trans; eassumption.
+      * destruct IH as [(a & I1 & I2 & I3 & I4 & I5 & I6 & I7 & I8 & I9 & I10)|[I1 I2]].
+        -- left. cbn [s1 ugot rd n buf l recording] in *. rewrite I1. exists (b :: a).
+           repeat apply conj; auto; cbn [length]; try lia.
+           ++ congruence.
+           ++ rewrite I6. destruct ap; [|reflexivity]. rewrite <- app_assoc. reflexivity.
+           ++ rewrite I7. symmetry. apply last_cons_d.
+           ++ congruence.
+           ++ eapply sfx_trans; eassumption.
+        -- right. split; [assumption|]. intros Hab. apply I2. cbn [s1 ugot rd].
+           eapply abides_sfx; eassumption.
+    + exists [], (data r'). cbn [s1 ugot rd n buf l recording length]. repeat apply conj; auto; try lia.
+  - destruct G as (G1 & G2 & G3 & [(G4 & G5 & G6)|[G4 G5]]).
+    + left. exists []. rewrite G5. cbn [span set_rd rd n buf l recording length last].
+      repeat apply conj; auto; try lia. destruct ap; [rewrite app_nil_r|]; reflexivity.
+    + right. split; assumption.
+Qed.
+
+(* ---------- span ---------- *)
+Lemma span_app : forall p x a r, span p x = (a, r) -> x = a ++ r.
+Proof.
+  induction x as [|b x IH]; intros a r H; cbn in H.
+  - inversion H. reflexivity.
+  - destruct (p b).
+    + destruct (span p x) as [a' r']. inversion H; subst. cbn. f_equal. apply IH. reflexivity.
+    + inversion H. reflexivity.
+Qed.
+
+Definition q_dq0 (b : N) : bool := negb ((b =? dquote)%N || (b =? 0)%N).
+Definition q_dq (b : N) : bool := negb (b =? dquote)%N.
+
+Lemma span_dq : forall x a r, span q_dq0 x = (a, r) ->
+  match r with t :: _ => (t =? dquote)%N = true | [] => True end ->
+  span q_dq x = (a, r).
+Proof.
+  induction x as [|b x IH]; intros a r H Ht; cbn in H |- *.
+  - exact H.
+  - unfold q_dq0 in H at 1. unfold q_dq at 1.
+    destruct (b =? dquote)%N eqn:E1; cbn in H |- *.
+    + exact H.
+    + destruct (b =? 0)%N eqn:E2; cbn in H.
+      * inversion H; subst. rewrite E1 in Ht. discriminate.
+      * fold q_dq0 in H. destruct (span q_dq0 x) as [a' r'] eqn:E.
+        inversion H; subst. rewrite (IH a' r eq_refl Ht). reflexivity.
+Qed.
+
+Lemma last_skipn : forall (a : list N) k d, k < length a -> last (skipn k a) d = last a d.
+Proof.
+  intros a k d H. rewrite <- (firstn_skipn k a) at 2. symmetry. apply last_app_ne.
+  intros E. apply (f_equal (@length N)) in E. rewrite skipn_length in E. cbn in E. lia.
+Qed.
+
+Lemma slice_mid : forall (x y z : list N) i j, i = length x -> j = length x + length y ->
+  slice i j (x ++ y ++ z) = y.
+Proof.
+  intros x y z i j -> ->. unfold slice. rewrite skipn_app. rewrite skipn_all2 by lia.
+  replace (length x - length x) with 0 by lia. cbn [skipn app].
+  replace (length x + length y - length x) with (length y) by lia.
+  rewrite firstn_app_le by lia. apply firstn_all2. lia.
+Qed.
+
+Lemma skipn_exact : forall (x y : list N) i, i = length x -> skipn i (x ++ y) = y.
+Proof. intros x y i ->. rewrite skipn_app. rewrite skipn_all2 by lia. replace (length x - length x) with 0 by lia. reflexivity. Qed.
+
+Lemma Ru_set_buf : forall sc0 f0 s p b, recording s = false -> Ru sc0 f0 s p -> Ru sc0 f0 (set_buf s b) p.
+Proof.
+  intros sc0 f0 s p b Hr [R1 R2 R3 R4 R5 R6 R7 R9 R8]. constructor; cbn; auto. intros E. congruence.
+Qed.
+
+Lemma Ru_noadv : forall sc0 f0 s p, Ru sc0 f0 s p -> Ru sc0 f0 s (stake 0 p).
+Proof.
+  intros sc0 f0 s p HR. unfold stake. cbn [firstn skipn].
+  eapply Ru_adv with (d := []); try exact HR; cbn; auto using sfx_refl.
+  - apply (ru_data _ _ _ _ HR).
+  - intros _. rewrite app_nil_r. reflexivity.
+Qed.
+
+(* ---------- unbuffered mode: every operation ---------- *)
+Lemma noprog_sim : forall sc0 (R : st -> sp -> Prop) s spr,
+  sfx (script (rd s)) sc0 -> ~ abides (script (rd s)) -> sim sc0 R s (Err KNoProgress) spr.
+Proof.
+  intros sc0 R s spr Hs Hab. destruct spr; cbn [sim].
+  - split; [apply noprog_not_bad|]. intros [_ A]. apply Hab. eapply abides_sfx; eassumption.
+  - apply noprog_not_bad.
+Qed.
+
+Lemma u_readn1_sim : forall sc0 f0 c s p, Ru sc0 f0 s p -> sim sc0 (Ru sc0 f0) s (u_readn1 c s) (sstep p Readn1).
+Proof.
+  intros sc0 f0 c s p HR. unfold u_readn1. pose proof (get1_spec c (rd s) (ru_fin _ _ _ _ HR)) as G.
+  destruct (get1 c (rd s)) as [[ob e] r']. cbn [sstep]. unfold sp_take.
+  rewrite <- (ru_data _ _ _ _ HR). destruct ob as [b|].
+  - destruct G as (G1 & G2 & G3 & G4). rewrite G1. cbn [length Nat.leb firstn sim].
+    split; [reflexivity|]. split; [reflexivity|]. unfold stake. rewrite <- (ru_data _ _ _ _ HR), G1. cbn [firstn skipn].
+    eapply Ru_adv; try exact HR; cbn [ugot rd n l recording buf length last]; auto.
+    + rewrite <- (ru_data _ _ _ _ HR). exact G1.
+    + lia.
+    + lia.
+    + intros Hr. rewrite Hr. reflexivity.
+  - destruct G as (G1 & G2 & G3 & [(G4 & G5 & G6)|[G4 G5]]).
+    + rewrite G5. cbn [length Nat.leb sim]. subst e. apply fin_not_bad, (ru_fin _ _ _ _ HR).
+    + subst e. apply noprog_sim; [apply (ru_sfx _ _ _ _ HR)|assumption].
+Qed.
+
+Lemma take0_sim : forall sc0 f0 s p keep, Ru sc0 f0 s p -> sim sc0 (Ru sc0 f0) s (Ok [] 0%N s) (sp_take 0 keep p).
+Proof.
+  intros sc0 f0 s p keep HR. unfold sp_take. cbn [Nat.leb firstn sim].
+  split; [destruct keep; reflexivity|]. split; [reflexivity|]. apply Ru_noadv, HR.
+Qed.
+
+Lemma u_readxb_sim : forall sc0 f0 c s p k, Ru sc0 f0 s p -> sim sc0 (Ru sc0 f0) s (u_readxb c k s) (sstep p (Readx k)).
+Proof.
+  intros sc0 f0 c s p k HR. unfold u_readxb. cbn [sstep]. destruct (k =? 0) eqn:E.
+  - apply Nat.eqb_eq in E. subst k. apply take0_sim, HR.
+  - apply Nat.eqb_neq in E.
+    apply (u_take_sim sc0 f0 s p k (fun w => inferLen w (mil c)) true true HR); auto; try lia.
+    apply inferLen_ok, mil_pos.
+Qed.
+
+Lemma u_readb_sim : forall sc0 f0 c s p k, Ru sc0 f0 s p -> sim sc0 (Ru sc0 f0) s (u_readb c k s) (sstep p (Readb k)).
+Proof.
+  intros sc0 f0 c s p k HR. unfold u_readb. cbn [sstep]. destruct (k =? 0) eqn:E.
+  - apply Nat.eqb_eq in E. subst k. apply take0_sim, HR.
+  - apply Nat.eqb_neq in E.
+    apply (u_take_sim sc0 f0 s p k (fun w => w) (recording s) true HR); auto; try lia.
+Qed.
+
+Lemma u_skip_sim : forall sc0 f0 c s p k, Ru sc0 f0 s p -> pre_ok false p (Skip k) = true ->
+  sim sc0 (Ru sc0 f0) s (u_skip c k s) (sstep p (Skip k)).
+Proof.
+  intros sc0 f0 c s p k HR Hpre. unfold u_skip. cbn [sstep]. destruct (k =? 0) eqn:E.
+  - apply Nat.eqb_eq in E. subst k. apply take0_sim, HR.
+  - cbn [pre_ok orb] in Hpre. rewrite E, orb_false_r in Hpre. rewrite (ru_rec _ _ _ _ HR), Hpre.
+    apply Nat.eqb_neq in E.
+    apply (u_take_sim sc0 f0 s p k (fun w => inferLen w (mil c)) true false HR); auto; try lia.
+    apply inferLen_ok, mil_pos.
+Qed.
+
+Lemma firstn_span : forall (a r : list N) t, firstn (S (length a)) (a ++ t :: r) = a ++ [t].
+Proof.
+  intros a r t. replace (a ++ t :: r) with ((a ++ [t]) ++ r) by (rewrite <- app_assoc; reflexivity).
+  rewrite firstn_app_le by (rewrite app_length; cbn; lia). apply firstn_all2. rewrite app_length. cbn. lia.
+Qed.
+
+Lemma skipn_span : forall (a r : list N) t, skipn (S (length a)) (a ++ t :: r) = r.
+Proof.
+  intros a r t. replace (a ++ t :: r) with ((a ++ [t]) ++ r) by (rewrite <- app_assoc; reflexivity).
+  apply skipn_exact. rewrite app_length. cbn. lia.
+Qed.
+
+(* the state after a scan that consumed [a ++ [t]] *)
+Lemma Ru_scan_tok : forall sc0 f0 s p s' a t r',
+  Ru sc0 f0 s p -> rest p = a ++ t :: r' -> data (rd s') = r' ->
+  n s' = n s + S (length a) -> drawn (rd s') = drawn (rd s) + S (length a) ->
+  (recording s = true -> buf s' = buf s ++ a ++ [t]) -> l s' = t -> recording s' = recording s ->
+  fin (rd s') = fin (rd s) -> sfx (script (rd s')) (script (rd s)) ->
+  Ru sc0 f0 s' (stake (S (length a)) p).
+Proof.
+  intros sc0 f0 s p s' a t r' HR Hrest H1 H2 H3 H4 H5 H6 H7 H8.
+  unfold stake. rewrite Hrest, firstn_span, skipn_span.
+  eapply Ru_adv; try exact HR; auto.
+  - rewrite Hrest, <- app_assoc. reflexivity.
+  - rewrite app_length. cbn. lia.
+  - rewrite app_length. cbn. lia.
+  - rewrite last_last. assumption.
+Qed.
+
+Lemma u_ws_sim : forall sc0 f0 c s p, Ru sc0 f0 s p -> sim sc0 (Ru sc0 f0) s (u_ws c s) (sstep p SkipWs).
+Proof.
+  intros sc0 f0 c s p HR. unfold u_ws. cbn [sstep]. unfold sp_scan.
+  pose proof (u_scan_spec (ufuel s) c isWs (recording s) s (ru_fin _ _ _ _ HR) ltac:(unfold ufuel; lia)) as H.
+  destruct (u_scan (ufuel s) c isWs (recording s) s) as [t s'|e s'].
+  - destruct H as (a & r' & I1 & I0 & I2 & I3 & I4 & I5 & I6 & I7 & I8 & I9).
+    rewrite <- (ru_data _ _ _ _ HR), I1. cbn [sim]. split; [reflexivity|]. split; [reflexivity|].
+    eapply Ru_scan_tok; try exact HR; eauto.
+    + rewrite <- (ru_data _ _ _ _ HR). apply (span_app _ _ _ _ I1).
+    + intros Hr. rewrite I5, Hr. reflexivity.
+  - destruct H as [(a & I1 & I2 & _)|[I1 I2]].
+    + rewrite <- (ru_data _ _ _ _ HR), I1. cbn [sim]. subst e. apply fin_not_bad, (ru_fin _ _ _ _ HR).
+    + subst e. apply noprog_sim; [apply (ru_sfx _ _ _ _ HR)|assumption].
+Qed.
+
+(* z.buf ends with the last byte read when jsonReadNum starts *)
+Lemma u_num_buf : forall sc0 f0 s p, Ru sc0 f0 s p -> pre p <> [] ->
+  let s1 := if recording s then s else set_buf s [l s] in
+  Ru sc0 f0 s1 p /\ exists X, buf s1 = X ++ [last (pre p) 0%N] /\ length (buf s1) - 1 = length X /\
+  rd s1 = rd s /\ n s1 = n s /\ l s1 = l s /\ recording s1 = recording s.
+Proof.
+  intros sc0 f0 s p HR Hne. cbv zeta. destruct (recording s) eqn:Er.
+  - split; [exact HR|]. destruct (ru_buf _ _ _ _ HR Er) as [B1 B2].
+    exists (removelast (buf s)). repeat apply conj; auto.
+    + assert (Hb : buf s <> []).
+      { rewrite B1. intros E. apply (f_equal (@length N)) in E. rewrite skipn_length in E. cbn in E. lia. }
+      rewrite (app_removelast_last 0%N Hb) at 1. f_equal. f_equal.
+      rewrite B1. apply last_skipn. exact B2.
+    + assert (Hb : buf s <> []).
+      { rewrite B1. intros E. apply (f_equal (@length N)) in E. rewrite skipn_length in E. cbn in E. lia. }
+      rewrite (app_removelast_last 0%N Hb) at 1. rewrite app_length. cbn. lia.
+  - split; [apply Ru_set_buf; assumption|]. exists []. cbn. repeat apply conj; auto.
+    rewrite (ru_l _ _ _ _ HR Hne). reflexivity.
+Qed.
+
+Lemma u_num_sim : forall sc0 f0 c s p, Ru sc0 f0 s p -> pre_ok false p ReadNum = true ->
+  sim sc0 (Ru sc0 f0) s (u_num c s) (sstep p ReadNum).
+Proof.
+  intros sc0 f0 c s p HR Hpre. cbn [pre_ok] in Hpre. apply andb_prop in Hpre. destruct Hpre as [Hp1 Hp2].
+  apply Nat.ltb_lt in Hp1. assert (Hne : pre p <> []) by (intros E; rewrite E in Hp1; cbn in Hp1; lia).
+  unfold u_num. destruct (u_num_buf sc0 f0 s p HR Hne) as [HR1 (X & B1 & B2 & B3 & B4 & B5 & B6)].
+  set (s1 := if recording s then s else set_buf s [l s]) in *.
+  cbn [sstep]. unfold last_or in *. rewrite Hp2. rewrite B2.
+  pose proof (u_scan_spec (ufuel s) c isNum true s1 (ru_fin _ _ _ _ HR1) ltac:(unfold ufuel; rewrite B3; lia)) as H.
+  destruct (u_scan (ufuel s) c isNum true s1) as [t s'|e s'].
+  - destruct H as (a & r' & I1 & I0 & I2 & I3 & I4 & I5 & I6 & I7 & I8 & I9).
+    rewrite <- (ru_data _ _ _ _ HR1), I1. cbn [sim]. split; [|split; [reflexivity|]].
+    + rewrite I5, B1. rewrite <- !app_assoc. rewrite !app_length. cbn [length].
+      replace (X ++ [last (pre p) 0%N] ++ a ++ [t]) with (X ++ (last (pre p) 0%N :: a) ++ [t]) by reflexivity.
+      apply slice_mid; cbn [length]; lia.
+    + eapply Ru_scan_tok; try exact HR1; eauto.
+      rewrite <- (ru_data _ _ _ _ HR1). apply (span_app _ _ _ _ I1).
+  - destruct H as [(a & I1 & I2 & I3 & I4 & I5 & I6 & I7 & I8 & I9 & I10)|[I1 I2]].
+    + rewrite <- (ru_data _ _ _ _ HR1), I1.
+      assert (HRs : Ru sc0 f0 s' (stake (length a) p)).
+      { unfold stake. pose proof (span_app _ _ _ _ I1) as Hd. rewrite (ru_data _ _ _ _ HR1) in Hd.
+        rewrite app_nil_r in Hd. rewrite Hd. rewrite firstn_all, skipn_all.
+        eapply Ru_adv; try exact HR1; auto.
+        - rewrite Hd, app_nil_r. reflexivity. }
+      subst e. destruct (ru_fin _ _ _ _ HR1) as [F|F]; rewrite F; cbn [sim].
+      * split; [|split; [reflexivity|exact HRs]].
+        rewrite I6, B1. rewrite <- app_assoc. apply skipn_exact. reflexivity.
+      * split; [intros [B|[B|B]]; discriminate|]. intros [F' _]. rewrite <- B3 in F'. congruence.
+    + subst e. change (Err KNoProgress) with (Err KNoProgress).
+      apply (noprog_sim sc0 (Ru sc0 f0) s).
+      * apply (ru_sfx _ _ _ _ HR).
+      * rewrite <- B3. assumption.
+Qed.
+
+Lemma u_until_sim : forall sc0 f0 c s p st1 st2 q,
+  Ru sc0 f0 s p -> (forall b, q b = negb ((b =? st1)%N || (b =? st2)%N)) ->
+  match u_until c st1 st2 s, span q (rest p) with
+  | Ok out tok s', (a, t :: _) => out = a /\ tok = t /\ Ru sc0 f0 s' (stake (S (length a)) p)
+  | Ok _ _ _, (_, []) => False
+  | Err k, (_, []) => ~ bad k
+  | Err k, (_, _ :: _) => ~ bad k /\ ~ (fin (rd s) = KEof /\ abides sc0)
+  end.
+Proof.
+  intros sc0 f0 c s p st1 st2 q HR Hq. unfold u_until.
+  set (s1 := if recording s then s else set_buf s []).
+  assert (HR1 : Ru sc0 f0 s1 p) by (unfold s1; destruct (recording s) eqn:Er; [exact HR|apply Ru_set_buf; assumption]).
+  assert (B3 : rd s1 = rd s) by (unfold s1; destruct (recording s); reflexivity).
+  assert (Hext : forall x, span (fun b => negb ((b =? st1)%N || (b =? st2)%N)) x = span q x).
+  { induction x as [|b x IH]; [reflexivity|]. cbn. rewrite Hq, IH. reflexivity. }
+  pose proof (u_scan_spec (ufuel s) c (fun b => negb ((b =? st1)%N || (b =? st2)%N)) true s1 (ru_fin _ _ _ _ HR1)
+                ltac:(unfold ufuel; rewrite B3; lia)) as H.
+  destruct (u_scan (ufuel s) c (fun b => negb ((b =? st1)%N || (b =? st2)%N)) true s1) as [t s'|e s'].
+  - destruct H as (a & r' & I1 & I0 & I2 & I3 & I4 & I5 & I6 & I7 & I8 & I9).
+    rewrite Hext in I1. rewrite <- (ru_data _ _ _ _ HR1), I1. split; [|split; [reflexivity|]].
+    + rewrite I5. rewrite !app_length. cbn [length]. apply slice_mid; lia.
+    + eapply Ru_scan_tok; try exact HR1; eauto.
+      rewrite <- (ru_data _ _ _ _ HR1). apply (span_app _ _ _ _ I1).
+  - destruct H as [(a & I1 & I2 & _)|[I1 I2]].
+    + rewrite Hext in I1. rewrite <- (ru_data _ _ _ _ HR1), I1. subst e. apply fin_not_bad, (ru_fin _ _ _ _ HR1).
+    + subst e. pose proof (noprog_sim sc0 (Ru sc0 f0) s) as NP.
+      assert (A1 : sfx (script (rd s)) sc0) by apply (ru_sfx _ _ _ _ HR).
+      assert (A2 : ~ abides (script (rd s))) by (rewrite <- B3; assumption).
+      destruct (span q (rest p)) as [a [|t r]].
+      * apply (NP SErr A1 A2).
+      * apply (NP (SOk [] 0%N p) A1 A2).
+Qed.
+
+Lemma u_startrec_sim : forall sc0 f0 s p, Ru sc0 f0 s p -> pre_ok false p StartRec = true ->
+  Ru sc0 f0 (set_rec s true (recc s) [l s]) (mksp (pre p) (rest p) true (length (pre p) - 1)).
+Proof.
+  intros sc0 f0 s p [R1 R2 R3 R4 R5 R6 R7 R9 R8] Hpre. cbn [pre_ok] in Hpre. apply Nat.ltb_lt in Hpre.
+  assert (Hne : pre p <> []) by (intros E; rewrite E in Hpre; cbn in Hpre; lia).
+  constructor; cbn; auto. intros _. split; [|lia].
+  rewrite (skipn_pred_last _ 0%N Hne). rewrite (R4 Hne). reflexivity.
+Qed.
+
+Lemma u_stoprec_sim : forall sc0 f0 s p, Ru sc0 f0 s p ->
+  Ru sc0 f0 (set_rec s false (recc s) []) (mksp (pre p) (rest p) false 0).
+Proof.
+  intros sc0 f0 s p [R1 R2 R3 R4 R5 R6 R7 R9 R8]. constructor; cbn; auto. intros E. discriminate.
+Qed.
+
+Lemma ustep_sim : forall sc0 f0 c s p o, bufio c = false -> Ru sc0 f0 s p -> pre_ok false p o = true ->
+  sim sc0 (Ru sc0 f0) s (step c s o) (sstep p o).
+Proof.
+  intros sc0 f0 c s p o Hb HR Hpre. unfold step. rewrite Hb. destruct o.
+  - apply u_readn1_sim, HR.
+  - apply u_readxb_sim, HR.
+  - apply u_readb_sim, HR.
+  - apply u_skip_sim; assumption.
+  - apply u_ws_sim, HR.
+  - apply u_num_sim; assumption.
+  - cbn [sstep]. unfold sp_scan.
+    pose proof (u_until_sim sc0 f0 c s p dquote bslash (fun b => negb ((b =? dquote)%N || (b =? bslash)%N)) HR ltac:(reflexivity)) as H.
+    destruct (u_until c dquote bslash s) as [out tok s'|k];
+      destruct (span (fun b => negb ((b =? dquote)%N || (b =? bslash)%N)) (rest p)) as [a [|t r]]; cbn [sim]; auto.
+  - cbn [sstep]. unfold sp_scan.
+    pose proof (u_until_sim sc0 f0 c s p dquote 0%N q_dq0 HR ltac:(reflexivity)) as H.
+    cbn [pre_ok] in Hpre. fold q_dq0 in Hpre. fold q_dq.
+    destruct (span q_dq0 (rest p)) as [a r] eqn:Es. cbn [snd] in Hpre.
+    assert (Hs : span q_dq (rest p) = (a, r)).
+    { apply span_dq; [exact Es|]. destruct r; [exact I|exact Hpre]. }
+    rewrite Hs. destruct (u_until c dquote 0%N s) as [out tok s'|k]; destruct r as [|t r]; cbn [sim]; auto.
+    destruct H as (H1 & H2 & H3). auto.
+  - cbn [sstep sim]. split; [reflexivity|]. split; [reflexivity|]. apply u_startrec_sim; assumption.
+  - cbn [sstep sim]. cbn [pre_ok] in Hpre. split; [|split; [reflexivity|apply u_stoprec_sim, HR]].
+    apply (ru_buf _ _ _ _ HR). rewrite (ru_rec _ _ _ _ HR). exact Hpre.
+Qed.
+
+(* ---------- runs ---------- *)
+(* the io trace follows the specification trace until it stops with an error
+   (which is never one of the model's internal failure classes) *)
+Inductive agree : list ev -> list tr -> Prop :=
+| ag_nil : agree [] []
+| ag_ok : forall o t nr d c q io sp, agree io sp -> agree (EOk o t nr d c q :: io) (TOk o t nr :: sp)
+| ag_err : forall k x sp, ~ bad k -> agree [EErr k] (x :: sp).
+
+Definition no_overread_ev (e : ev) : Prop :=
+  match e with EOk _ _ nr d _ _ => d = nr | EErr _ => True end.
+
+Section Run.
+Variables (c : cfg) (sc0 : list resp) (f0 : ek) (R : st -> sp -> Prop).
+Hypothesis Hstep : forall s p o, R s p -> pre_ok (bufio c) p o = true -> sim sc0 R s (step c s o) (sstep p o).
+Hypothesis Hn : forall s p, R s p -> n s = length (pre p) /\ fin (rd s) = f0.
+
+Lemma run_agree : forall ops s p, R s p -> respects (bufio c) p ops = true ->
+  agree (run_io c s ops) (run_spec p ops).
+Proof.
+  induction ops as [|o ops IH]; intros s p HR Hresp; [constructor|].
+  cbn [respects] in Hresp. apply andb_prop in Hresp. destruct Hresp as [Hpre Hresp].
+  pose proof (Hstep s p o HR Hpre) as H. cbn [run_io run_spec].
+  destruct (step c s o) as [out tok s'|k]; destruct (sstep p o) as [out' tok' p'|]; cbn [sim] in H.
+  - destruct H as (-> & -> & HR'). destruct (Hn _ _ HR') as [-> _]. constructor. apply IH; assumption.
+  - contradiction.
+  - destruct H as [H _]. constructor. exact H.
+  - constructor. exact H.
+Qed.
+
+Lemma run_refines : f0 = KEof -> abides sc0 -> forall ops s p, R s p -> respects (bufio c) p ops = true ->
+  map erase (run_io c s ops) = run_spec p ops.
+Proof.
+  intros Hf Hab. induction ops as [|o ops IH]; intros s p HR Hresp; [reflexivity|].
+  cbn [respects] in Hresp. apply andb_prop in Hresp. destruct Hresp as [Hpre Hresp].
+  pose proof (Hstep s p o HR Hpre) as H. cbn [run_io run_spec].
+  destruct (step c s o) as [out tok s'|k]; destruct (sstep p o) as [out' tok' p'|]; cbn [sim] in H.
+  - destruct H as (-> & -> & HR'). destruct (Hn _ _ HR') as [E _]. cbn [map erase]. rewrite E. f_equal.
+    apply IH; assumption.
+  - contradiction.
+  - exfalso. destruct H as [_ H]. apply H. split; [|exact Hab]. destruct (Hn _ _ HR) as [_ E]. congruence.
+  - reflexivity.
+Qed.
+
+Lemma run_forall : forall (P : st -> Prop), (forall s p, R s p -> P s) ->
+  forall ops s p, R s p -> respects (bufio c) p ops = true ->
+  Forall (fun e => match e with EOk _ _ nr d _ _ => exists s', P s' /\ nr = n s' /\ d = drawn (rd s') | EErr _ => True end)
+         (run_io c s ops).
+Proof.
+  intros P HP. induction ops as [|o ops IH]; intros s p HR Hresp; [constructor|].
+  cbn [respects] in Hresp. apply andb_prop in Hresp. destruct Hresp as [Hpre Hresp].
+  pose proof (Hstep s p o HR Hpre) as H. cbn [run_io].
+  destruct (step c s o) as [out tok s'|k]; destruct (sstep p o) as [out' tok' p'|]; cbn [sim] in H.
+  - destruct H as (-> & -> & HR'). constructor; [exists s'; split; [eapply HP; eassumption|split; reflexivity]|]. apply (IH s' p'); assumption.
+  - contradiction.
+  - constructor; [exact I|constructor].
+  - constructor; [exact I|constructor].
+Qed.
+End Run.
+
+Lemma Ru_init : forall c d sc f, bufio c = false -> f = KEof \/ f = KHard -> Ru sc f (init c d sc f) (sinit d).
+Proof.
+  intros c d sc f Hb Hf. unfold init, sinit. constructor; cbn; auto using sfx_refl; intros H; congruence.
+Qed.
+
+Lemma agree_truncated : forall io sp, agree io sp -> In TErr sp -> exists k, In (EErr k) io /\ ~ bad k.
+Proof.
+  induction 1 as [|o t nr d c q io sp H IH|k x sp Hk]; intros Hin.
+  - destruct Hin.
+  - destruct Hin as [E|Hin]; [discriminate|]. destruct (IH Hin) as [k [A B]]. exists k. split; [right; exact A|exact B].
+  - exists k. split; [left; reflexivity|exact Hk].
+Qed.
+
+Lemma agree_total : forall io sp, agree io sp -> forall k, In (EErr k) io -> ~ bad k.
+Proof.
+  induction 1 as [|o t nr d c q io sp H IH|k x sp Hk]; intros k' Hin.
+  - destruct Hin.
+  - destruct Hin as [E|Hin]; [discriminate|]. apply IH, Hin.
+  - destruct Hin as [E|[]]. inversion E; subst. exact Hk.
+Qed.
+
+(* unbuffered mode, all three statements *)
+Lemma unbuf_agree : forall c d sc f ops, bufio c = false -> f = KEof \/ f = KHard ->
+  respects false (sinit d) ops = true -> agree (run_io c (init c d sc f) ops) (run_spec (sinit d) ops).
+Proof.
+  intros c d sc f ops Hb Hf Hr.
+  apply (run_agree c sc f (Ru sc f)).
+  - intros s p o HR Hpre. rewrite Hb in Hpre. apply ustep_sim; assumption.
+  - intros s p HR. split; [apply (ru_n _ _ _ _ HR)|apply (ru_fin0 _ _ _ _ HR)].
+  - apply Ru_init; assumption.
+  - rewrite Hb. exact Hr.
+Qed.
+
+Lemma unbuf_refines : forall c d sc ops, bufio c = false -> abides sc ->
+  respects false (sinit d) ops = true ->
+  map erase (run_io c (init c d sc KEof) ops) = run_spec (sinit d) ops.
+Proof.
+  intros c d sc ops Hb Hab Hr.
+  apply (run_refines c sc KEof (Ru sc KEof)); auto.
+  - intros s p o HR Hpre. rewrite Hb in Hpre. apply ustep_sim; assumption.
+  - intros s p HR. split; [apply (ru_n _ _ _ _ HR)|apply (ru_fin0 _ _ _ _ HR)].
+  - apply Ru_init; auto.
+  - rewrite Hb. exact Hr.
+Qed.
+
+Lemma unbuf_no_overread : forall c d sc f ops, bufio c = false -> f = KEof \/ f = KHard ->
+  respects false (sinit d) ops = true ->
+  Forall no_overread_ev (run_io c (init c d sc f) ops).
+Proof.
+  intros c d sc f ops Hb Hf Hr.
+  pose proof (run_forall c sc (Ru sc f)
+    ltac:(intros s p o HR Hpre; rewrite Hb in Hpre; apply ustep_sim; assumption)
+    (fun s => drawn (rd s) = n s) ltac:(intros s p HR; apply (ru_drawn _ _ _ _ HR))
+    ops (init c d sc f) (sinit d) (Ru_init c d sc f Hb Hf) ltac:(rewrite Hb; exact Hr)) as H.
+  eapply Forall_impl; [|exact H]. intros [o t nr dd cc q|k]; cbn; auto.
+  intros [s' [A [B C]]]. congruence.
+Qed.
